@@ -15,7 +15,7 @@ import (
 func init() {
 	register(&Rule{
 		Name:     "POOLFIELD",
-		Doc:      "for every struct field that holds a pooled object (an argument type of a discovered pool putter) and whose buffer some function returns to its caller (a result derived from a load of the field through RawBuf/Bytes/field/slice steps), no function passes a load of that same field to a pool putter",
+		Doc:      "for every struct field that holds a pooled object (an argument type of a discovered pool putter) and whose buffer some function returns to its caller (a result derived from a load of the field through RawBuf/Bytes/field/slice steps), no function passes a load of that same field — or a local object it has stored into that field — to a pool putter",
 		Configs:  "NP",
 		Floor:    map[string]int{"N": 1, "P": 1},
 		Controls: 1,
@@ -46,6 +46,20 @@ func runPoolField(rc *RuleCtx) {
 		}
 		return fkey{typeShort(t), n}, true
 	}
+	// storedIntoField: the field (of a pooled type) this function stores v into, if any
+	storedIntoField := func(fn *ssa.Function, v ssa.Value) (fkey, bool) {
+		if v.Referrers() == nil || !pooledTypes[typeShort(v.Type())] {
+			return fkey{}, false
+		}
+		for _, r := range *v.Referrers() {
+			if st, ok := r.(*ssa.Store); ok && st.Val == v {
+				if t, n, ok := fieldNameOf(st.Addr); ok {
+					return fkey{typeShort(t), n}, true
+				}
+			}
+		}
+		return fkey{}, false
+	}
 	handed := map[fkey]ssa.Instruction{}
 	put := map[fkey][]ssa.Instruction{}
 	putFn := map[ssa.Instruction]*ssa.Function{}
@@ -60,6 +74,10 @@ func runPoolField(rc *RuleCtx) {
 					if cal := c.Common().StaticCallee(); cal != nil {
 						if idx, ok := putters[cal]; ok && idx < len(c.Common().Args) {
 							if k, ok := fieldLoad(c.Common().Args[idx]); ok {
+								put[k] = append(put[k], ins)
+								putFn[ins] = fn
+							} else if k, ok := storedIntoField(fn, c.Common().Args[idx]); ok {
+								// the same object under its local name: `p := get(); x.f = p; …; put(p)`
 								put[k] = append(put[k], ins)
 								putFn[ins] = fn
 							}
